@@ -130,3 +130,8 @@ _push('C05', 'Lean 4 proof (forward simulation: memory cache + LIFO rollback ref
       'Theorem C05_apply_refines for all file systems, configurations and ranges; C05_exit_and_names. Real pushes (multi-file patches, creates, '
       'deletes, renames, mode changes, failure at any position and in any subset of files, all backup modes) must leave exactly pushSpec\'s tree, '
       'rejects, .pc and exit status.')
+
+_push('C08', 'Lean 4 proof (backup loop = LIFO undo chain per patch; last write per backup file = pre-patch state; window arithmetic) + differential correspondence on .pc contents',
+      'Theorems C08_calls, C08_backup_is_prestate, C08_backups_total, C08_window, C08_modes for all workspaces. The real .pc/<patch>/<file> '
+      'files (bytes and modes) and .pc/applied-patches must equal pushSpec\'s for backup modes always/onfail/never, counts all/0/1/2/100, '
+      'renames, creates, deletes, repeated files.')
